@@ -1,9 +1,12 @@
-(* C15: property theorems.  Statements only; every proof is `exact` of a lemma in Proofs/. *)
+(* C15 -- A schedule's stream depends only on its own parameters
+   Property theorems only: each proof is one application of a lemma proved in Proofs/, followed by Print Assumptions. *)
 From Coq Require Import ZArith List Bool.
-From CS Require MemoCoh.
+From CS Require MemoCoh SchedProofs.
+From CS Require Import Actions NAdvance Multistage Exec Sched RunFacts Projections BasicInv MultistageRun TLBridge.
 Import ListNotations.
 Open Scope Z_scope.
 
+(* every cache reachable by any sequence of calls holds only correct entries *)
 Module M_C15_cache_coherent.
 Import MemoCoh.
 Theorem C15_cache_coherent :
@@ -12,6 +15,7 @@ Proof. exact (@MemoCoh.C15_cache_coherent). Qed.
 Print Assumptions C15_cache_coherent.
 End M_C15_cache_coherent.
 
+(* a successful call returns the pure value whatever the call history *)
 Module M_C15_history_independent.
 Import MemoCoh.
 Theorem C15_history_independent :
